@@ -1416,7 +1416,8 @@ class Fxp():
             y.set_val(self.val >> np.array(n - n_frac_expansion, dtype=self.val.dtype), raw=True)   # set raw val shifted
         else:
             y = self.deepcopy()
-            y.val = y.val >> np.array(n, dtype=y.val.dtype)
+            # a shifted scalar is kept like every other scalar value (a 0-d array of the same type)
+            y.val = np.asarray(y.val >> np.array(n, dtype=y.val.dtype), dtype=y.val.dtype)
         return y
 
     __irshift__ = __rshift__
